@@ -409,9 +409,14 @@ def _check_history(hist, ref, failed_ops, V, stats, simos, k):
                            'later-transaction-in-flight-on-same-key',
                            f'{r["vt"]}: {e["name"]} was committed; an interrupted transaction on the '
                            f'same key left PENDING and the entry is refused')
-                elif isinstance(r['exc'], OSError) and r['exc'].errno in (
-                        errno.ENOSPC, errno.EIO, errno.EMFILE, errno.EACCES):
-                    pass      # the read itself hit an injected error
+                elif isinstance(r['exc'], OSError) and (
+                        r['exc'].errno in (errno.ENOSPC, errno.EIO, errno.EMFILE, errno.EACCES) or
+                        any(pe[2] == r['exc'].errno for pe in simos.produced_errors)):
+                    # the read itself hit an injected error, or the simulated kernel refused
+                    # the lock with EDEADLK (Linux's owner-level cycle detection gives false
+                    # positives with threads): an environment fault, the call is unacknowledged
+                    stats['observed.read_refused_by_environment'] = \
+                        stats.get('observed.read_refused_by_environment', 0) + 1
                 else:
                     V.viol(f'committed-unretrievable/{type(r["exc"]).__name__}',
                            f'{r["vt"]}: retrieve of committed {e["name"]} raised {r["exc"]!r}')
